@@ -10,9 +10,11 @@ import (
 	"math/rand"
 	"os"
 	"path/filepath"
+	"runtime"
 	"sort"
 	"strings"
 	"sync"
+	"sync/atomic"
 
 	oci "github.com/opencontainers/runtime-spec/specs-go"
 	"tags.cncf.io/container-device-interface/pkg/cdi"
@@ -53,7 +55,7 @@ func (w *c11World) specFiles(dir string) (spec, other []string) {
 	return
 }
 
-var c11OpKinds = []string{"create-by-write", "touch", "rewrite-in-place", "append", "tmp-rename-inside", "rename-in-from-outside", "hardlink-in", "rename-away", "rename-to-non-spec", "rename-from-non-spec", "unlink", "mkdir-missing", "rmdir-with-content", "recreate-dir", "create-invalid", "chmod", "truncate", "truncate", "rmdir-recreate", "rmdir-recreate", "symlink-in", "symlink-dangling", "symlink-rename-in"}
+var c11OpKinds = []string{"create-by-write", "touch", "rewrite-in-place", "append", "tmp-rename-inside", "rename-in-from-outside", "hardlink-in", "rename-away", "rename-to-non-spec", "rename-from-non-spec", "unlink", "mkdir-missing", "rmdir-with-content", "recreate-dir", "create-invalid", "chmod", "truncate", "truncate", "rmdir-recreate", "rmdir-recreate", "symlink-in", "symlink-dangling", "symlink-rename-in", "rename-dir-away", "rename-dir-away-recreate"}
 
 // do performs one operation; it returns "" when it is not applicable now.
 func (w *c11World) do(kind string) (desc string) {
@@ -231,6 +233,20 @@ func (w *c11World) do(kind string) (desc string) {
 		}
 		must(os.RemoveAll(dir))
 		return "rm -rf " + dir
+	case "rename-dir-away", "rename-dir-away-recreate":
+		// the directory leaves by being renamed, content and all (and is created
+		// again, populated, at once or by a later operation)
+		if !exists {
+			return ""
+		}
+		w.n++
+		must(os.Rename(dir, filepath.Join(w.staging, fmt.Sprintf("gone-dir-%d", w.n))))
+		if kind == "rename-dir-away-recreate" {
+			must(os.MkdirAll(dir, 0o755))
+			must(os.WriteFile(filepath.Join(dir, newName()), w.content(true), 0o644))
+			return "mv away + mkdir + file " + dir
+		}
+		return "mv away " + dir
 	case "truncate":
 		if len(specs) == 0 {
 			return ""
@@ -489,7 +505,7 @@ func checkC11(c *Ctx) {
 			c.Distinct(strings.Join(kinds, ",") + "|" + strings.Join(pacing, ","))
 		}
 		if got != want {
-			cs.Violation("no-convergence", map[string]string{"last_op": kinds[len(kinds)-1], "last_pacing": pacing[len(pacing)-1]}, fmt.Sprintf("after the history ended and the watcher drained, two rounds of queries still differ from a fresh cache (last change: %s)\n cache %s\n fresh %s", history[len(history)-1], clip(got, 1500), clip(want, 1500)), map[string]any{"configured_dirs": all, "history": history, "watcher_events": ev, "cache_state": gotM, "fresh_cache_state": wantM})
+			cs.Violation("no-convergence", map[string]string{"last_op": kinds[len(kinds)-1], "last_pacing": pacing[len(pacing)-1]}, fmt.Sprintf("after the history ended and the watcher drained, two rounds of queries still differ from a fresh cache (last change: %s)\n cache %s\n fresh %s", history[len(history)-1], clip(got, 1500), clip(want, 1500)), map[string]any{"configured_dirs": all, "history": history, "watcher_events": ev, "watcher_event_trace": a.EventTrace(), "spec_dir_errors": fmt.Sprint(a.C.GetSpecDirErrors()), "cache_state": gotM, "fresh_cache_state": wantM})
 			return
 		}
 		if rounds == 2 {
@@ -497,6 +513,102 @@ func checkC11(c *Ctx) {
 		}
 		c.Sample(4, map[string]any{"history": history, "watcher_events": ev, "rounds_of_queries": rounds})
 	})
+	// the directory is replaced at the very moment its watch is being set up
+	// (watch.beforeAdd hook releases a spinning goroutine that removes or renames the
+	// directory away and creates it again, populated): whichever side of the race
+	// wins, the cache must end up knowing the directory that is at the path
+	c.RunCases("swap", c.pick(3000, 30000), 8, func(cs *Case) {
+		r := cs.R
+		root := filepath.Join(c.Scratch, sanitize(cs.Name))
+		anchor, d1, staging := filepath.Join(root, "anchor"), filepath.Join(root, "d1"), filepath.Join(root, "staging")
+		must(os.MkdirAll(anchor, 0o755))
+		must(os.MkdirAll(staging, 0o755))
+		defer os.RemoveAll(root)
+		all := []string{anchor, d1}
+		a, err := newAutoCache(root, anchor, all) // d1 is missing: not watched yet
+		if err != nil {
+			c.Inconclusive("no-inotify")
+			return
+		}
+		defer a.Close()
+		how := pickStr(r, "rename-away", "rename-away", "rename-away", "rename-away", "rmdir")
+		delay := []int{0, 30, 150, 600, 3000}[r.Intn(5)]
+		headStart := []int{0, 300, 600, 1000, 1500, 2500, 4000, 7000}[r.Intn(8)]
+		if headStart > 0 {
+			delay = 0
+		}
+		var armed, goNow atomic.Bool
+		unhook := hookPrefix(root, func(point, arg string, n int) {
+			if point == "watch.beforeAdd" && arg == d1 && armed.CompareAndSwap(true, false) {
+				goNow.Store(true)
+				// head start for the other side: its rename/rmdir takes longer to get to the
+				// point of no return than the path lookup of the watch set-up
+				for i := 0; i < headStart; i++ {
+					_ = goNow.Load()
+				}
+			}
+		})
+		defer unhook()
+		must(os.MkdirAll(d1, 0o755)) // appears, empty: the next query adds the watch
+		done := make(chan struct{})
+		go func() {
+			defer close(done)
+			runtime.LockOSThread()
+			defer runtime.UnlockOSThread()
+			for !goNow.Load() {
+			}
+			for i := 0; i < delay; i++ {
+				_ = goNow.Load()
+			}
+			if how == "rename-away" {
+				os.Rename(d1, filepath.Join(staging, "gone"))
+			} else {
+				os.Remove(d1)
+			}
+			os.Mkdir(d1, 0o755)
+			os.WriteFile(filepath.Join(d1, "late.json"), []byte(`{"cdiVersion":"0.6.0","kind":"vendor.com/late","devices":[{"name":"d","containerEdits":{"env":["LATE=1"]}}]}`), 0o644)
+		}()
+		armed.Store(true)
+		a.C.ListDevices() // notices the directory and sets up its watch
+		if armed.Load() {
+			// the watcher goroutine or an earlier query got there first: nothing raced
+			goNow.Store(true)
+			c.Count("swap_not_raced", 1)
+		}
+		<-done
+		if !a.Quiesce() {
+			c.Inconclusive("quiesce-timeout")
+			return
+		}
+		// whatever the cache has loaded by now, it must also be watching the directory
+		// that is at the path: one more change there
+		cacheState(a.C, all)
+		must(os.WriteFile(filepath.Join(d1, "later.json"), []byte(`{"cdiVersion":"0.6.0","kind":"vendor.com/later","devices":[{"name":"d","containerEdits":{"env":["LATER=1"]}}]}`), 0o644))
+		if !a.Quiesce() {
+			c.Inconclusive("quiesce-timeout")
+			return
+		}
+		fresh, _ := cdi.NewCache(cdi.WithSpecDirs(all...), cdi.WithAutoRefresh(false))
+		want, wantM := cacheState(fresh, all)
+		var got string
+		var gotM map[string]any
+		for rounds := 1; rounds <= 2; rounds++ {
+			got, gotM = cacheState(a.C, all)
+			if got == want {
+				break
+			}
+			if !a.Quiesce() {
+				c.Inconclusive("quiesce-timeout")
+				return
+			}
+		}
+		c.Count("directory_swaps_at_watch_setup", 1)
+		c.Distinct(fmt.Sprintf("swap|%s|%d|%d", how, delay, headStart))
+		if got != want {
+			cs.Violation("no-convergence", map[string]string{"last_op": "swap-at-watch-setup", "last_pacing": how, "head_start": fmt.Sprint(headStart), "delay": fmt.Sprint(delay)}, fmt.Sprintf("the directory was replaced (%s, mkdir, new Spec file) while its watch was being set up; after the watcher drained, two rounds of queries still differ from a fresh cache\n cache %s\n fresh %s", how, clip(got, 1500), clip(want, 1500)), map[string]any{"configured_dirs": all, "how": how, "spin_delay": delay, "watcher_event_trace": a.EventTrace(), "spec_dir_errors": fmt.Sprint(a.C.GetSpecDirErrors()), "cache_state": gotM, "fresh_cache_state": wantM})
+		}
+	})
+	c.Floor("directory_swaps_at_watch_setup", 1000)
 	for _, k := range c11OpKinds {
 		if k == "chmod" || k == "recreate-dir" || k == "mkdir-missing" || k == "rename-from-non-spec" {
 			continue
